@@ -1051,3 +1051,43 @@ def check_from_iter_rejects(facts, rep):
         rep.violation('E4.O7-construction-rejects', inst, 'an iteration of BitSeq::from_iter stores a bit without having passed an explicit `len < MAX_LEN` test (%s)' % unguarded[0], where=b.where())
     else:
         rep.ok('E4.O7-construction-rejects', inst, 'for b in iter { assert!(len < 64); .. } over the input itself')
+
+
+def check_from_str_language(facts, rep):
+    """O8 (C17, "parsing and printing .. for every length from 0"): BitSeq::from_str accepts exactly the words over
+    {'0', '1'} - character by character: '0' -> Bit0, '1' -> Bit1, anything else an error - so that it is the inverse of
+    Display for every length including 0. Delegating to an integer parser (`from_str_radix`, `parse::<u64>`) accepts
+    another language: the empty word is rejected and a leading sign is swallowed."""
+    import re
+    from symex import SymEx, show, strip, apply_closure
+    fn = [b for k, b in facts.bodies.items() if k.endswith('BitSeq as std::str::FromStr>::from_str')]
+    if len(fn) != 1:
+        rep.indet('E4.O8: FromStr for BitSeq not found')
+        return
+    b = fn[0]
+    rep.saw(b)
+    inst = 'BitSeq::from_str|exactly the words over {0, 1}, character by character'
+    names = set()
+    table = None
+    for p in SymEx(b, havoc_loops=True, max_paths=2000).run():
+        for e in p.calls():
+            last = e.name.split('::')[-1]
+            names.add(last)
+            if last == 'map' and len(e.args) == 2 and strip(e.args[1])[0] == 'closure' and strip(e.args[0])[0] == 'call' and strip(e.args[0])[1].split('::')[-1] == 'chars':
+                rows = set()
+                for q in apply_closure(e.args[1], [('item',)]) or []:
+                    if q.end != 'return' or q.ret is None:
+                        continue
+                    conds = [(c.value, tuple(c.args or ())) for c in q.branches() if c.term == ('item',)]
+                    r = re.sub(r'#(?:i\d+:)?\d+\.\d+', '', show(q.ret, -1000))
+                    rows.add((conds[0] if len(conds) == 1 else None, r[:24]))
+                table = rows
+    if 'from_str_radix' in names or ('parse' in names and table is None):
+        rep.violation('E4.O8-parse-language', inst,
+                      'BitSeq::from_str hands the string to an integer parser (%s): "" is rejected although the empty sequence prints as "", and a leading `+` is accepted - parsing is no longer the inverse of printing at length 0 and malformed input is not rejected' % ('from_str_radix' if 'from_str_radix' in names else 'parse'),
+                      where=b.where())
+    elif table is not None and {(c[0] if c else None, r) for c, r in table} == {(48, 'Result::Ok{0: Bit::Bit0{'), (49, 'Result::Ok{0: Bit::Bit1{'), ('else', 'Result::Err{0: into("Inv')} | set() or \
+            (table is not None and sorted((c[0] if c else None) for c, r in table if r.startswith('Result::Ok{0: Bit::Bit0')) == [48] and sorted((c[0] if c else None) for c, r in table if r.startswith('Result::Ok{0: Bit::Bit1')) == [49] and all(r.startswith('Result::Err') for c, r in table if c and c[0] == 'else') and len(table) == 3):
+        rep.ok('E4.O8-parse-language', inst, "'0' -> Bit0, '1' -> Bit1, else Err; collected over chars()")
+    else:
+        rep.indet('E4.O8: BitSeq::from_str outside the recognised fragment: calls %s, table %s' % (sorted(n for n in names if n in ('chars', 'map', 'collect', 'bytes', 'parse', 'from_str_radix', 'try_fold', 'push')), sorted(table, key=str) if table else None))
